@@ -207,6 +207,62 @@ def scalars(case):
   return {'outcome': case['name'].split(':')[0], 'evals': 3, 'nontrivial': True}
 
 
+def special_values(case):
+  """Arrays and scalars whose VALUES are special although their bytes are ordinary: all +-0.0 (with and without a
+  negative zero), NaN payloads, infinities, denormals, the type limits, all-zero and all-ones bit patterns; compared bit
+  for bit after the round trip (through msgpack and through the SQLite builder)."""
+  import ml_dtypes
+  dt = {'bfloat16': ml_dtypes.bfloat16}.get(case['dtype'], None) or np.dtype(case['dtype'])
+  dt = np.dtype(dt)
+  evals = 0
+  if dt.kind in 'fc' or dt.name == 'bfloat16':
+    base = np.float64 if dt.kind != 'c' else np.complex128
+    vals = {
+        'neg_zeros': [-0.0, -0.0, -0.0], 'mixed_zeros': [0.0, -0.0, 0.0], 'pos_zeros': [0.0, 0.0],
+        'nan_inf': [np.nan, np.inf, -np.inf, 1.0], 'one_neg_zero': [-0.0],
+    }
+    arrs = {k: np.asarray(v, base).astype(dt) for k, v in vals.items()}
+    fi = np.finfo(dt) if dt.name != 'bfloat16' else ml_dtypes.finfo(dt)
+    arrs['limits'] = np.asarray([fi.max, fi.min, fi.tiny, fi.eps], dtype=dt)
+    arrs['denormal'] = (np.asarray([fi.tiny], dtype=dt) / np.asarray(4, dtype=dt)).astype(dt)
+    arrs['zero_d_neg_zero'] = np.asarray(-0.0, base).astype(dt).reshape(())
+  else:
+    ii = np.iinfo(dt) if dt.kind in 'iu' else None
+    arrs = {'zeros': np.zeros(3, dt), 'ones': np.ones((2, 2), dt)}
+    if ii is not None:
+      arrs['limits'] = np.asarray([ii.min, ii.max, 0], dtype=dt)
+  nbytes = dt.itemsize
+  arrs['all_ones_bits'] = np.frombuffer(b'\xff' * nbytes * 2, dtype=dt).copy() if dt.kind != 'b' else np.asarray([True, True])
+  for name, a in arrs.items():
+    for wrap in ({'a': a}, [a, {'b': a.reshape(a.shape + (1,))}]):
+      try:
+        same_leaf(wrap, roundtrip(wrap))
+      except Violation as e:
+        e.msg = '%s (%s): %s' % (name, dt.name, e.msg)
+        raise
+      evals += 1
+    if a.ndim == 0 and dt.name != 'bfloat16':
+      sc = a[()]
+      same_leaf({'s': sc}, roundtrip({'s': sc}))
+      evals += 1
+  # the same features through the SQLite builder / reader
+  from fedjax.core import sqlite_federated_data as sq
+  tmp = tempfile.mkdtemp(prefix='c16v_')
+  try:
+    path = os.path.join(tmp, 'v.sqlite')
+    feats = {k: v for k, v in arrs.items() if v.ndim == 1 and len(v) == 3}
+    if feats:
+      with sq.SQLiteFederatedDataBuilder(path) as b:
+        b.add_many([(b'c', feats)])
+      fd = sq.SQLiteFederatedData.new(path)
+      same_leaf(dict(feats), dict(fd.get_client(b'c').raw_examples), path='sqlite')
+      fd._connection.close()
+      evals += 1
+  finally:
+    shutil.rmtree(tmp, ignore_errors=True)
+  return {'evals': evals, 'nontrivial': True, 'outcome': dt.name}
+
+
 def _unsupported():
   return {
       'tuple': (1, 2),
@@ -474,7 +530,7 @@ def _plain(state):
   return {k: (np.asarray(v) if hasattr(v, 'dtype') and not isinstance(v, np.generic) else v) for k, v in state.items()}
 
 
-SUBS = {'aborted_deserialize': aborted_deserialize, 'checkpoint_api': checkpoint_api, 'arrays': arrays, 'bytes_arrays': bytes_arrays, 'scalars': scalars, 'unsupported': unsupported,
+SUBS = {'special_values': special_values, 'aborted_deserialize': aborted_deserialize, 'checkpoint_api': checkpoint_api, 'arrays': arrays, 'bytes_arrays': bytes_arrays, 'scalars': scalars, 'unsupported': unsupported,
         'nesting': nesting, 'sqlite_rt': sqlite_rt, 'state_rt': state_rt}
 TIMEOUTS = {k: 120 for k in SUBS}
 
@@ -500,6 +556,8 @@ def plan(ctx):
   ctx.run('bytes_arrays', [{'shape': list(s), 'fortran': f} for s in [(0,), (1,), (2,), (3,), (2, 2), (0, 2), (1, 2, 1)]
                            + ([(2, 3)] if th else []) for f in (False, True)])
   ctx.run('scalars', [{'name': n} for n in _scalar_pool()])
+  ctx.run('special_values', [{'dtype': d} for d in ('float16', 'bfloat16', 'float32', 'float64', 'complex64', 'complex128', 'int8',
+                                                    'uint8', 'int32', 'uint64', 'bool')])
   ctx.run('unsupported', [{'name': n} for n in _unsupported()])
   ctx.run('nesting', [{'depth': 2, 'pool': '3'}, {'depth': 3, 'pool': '1'}] if th else
           [{'depth': 2, 'pool': '3'}, {'depth': 2, 'pool': '1'}])
